@@ -4,7 +4,7 @@ Require ExtrOcamlBasic.
 From Coq Require Import ZArith QArith.
 From TW Require Import All.
 From TW Require Import Pipeline.
-From TW Require Import IdemUnicode IdemUnicodeOpt.
+From TW Require Import IdemUnicode IdemUnicodeOpt IdemLocal.
 From TW Require Import WrapSmawk.
 From TW Require Import Chars Esc Word Separators Splitters Num FirstFit OptFit Wrap Refill Indent Columns Custom.
 Extraction Language OCaml.
@@ -24,4 +24,4 @@ Extraction "model.ml"
   pipeline_words line_widths body lastw_pen
   ofit_smawk optimal_fit_smawk smawk_minima
   trim split_terminator_lf
-  optimal_b chain_b refind_b refind_opt_b wf_strip greedy_b take_ws has_nonws is_prefix_char split_terminator_lf trim_end ends_with join spaces.
+  optimal_b chain_b refind_b refind_opt_b local_b no_forced_b o_nobreak wf_strip greedy_b take_ws has_nonws is_prefix_char split_terminator_lf trim_end ends_with join spaces.
